@@ -25,15 +25,18 @@ fn main() {
     let mut usks: Vec<UserSecretKey> = vec![];
     let mut encs: Vec<(Secret<32>, XEnc)> = vec![];
     let mut snaps: Vec<Vec<u8>> = vec![];
-    for line in stdin.lock().lines() {
-        let line = line.unwrap();
+    let lines: Vec<String> = stdin.lock().lines().map(|l| l.unwrap()).collect();
+    for line in lines {
+        // a panic inside the library must not take the driver down: it is an observation ("PANIC")
+        let r = std::panic::catch_unwind(std::panic::AssertUnwindSafe(|| {
+
         let f: Vec<&str> = line.split(' ').collect();
         macro_rules! pol {
             ($s:expr) => {
                 match std::panic::catch_unwind(|| AccessPolicy::parse(&tok($s))) {
                     Ok(Ok(p)) => Some(p),
                     Ok(Err(_)) => None,
-                    Err(_) => { writeln!(out, "PANIC|{}", dump_msk(&msk)).unwrap(); continue; }
+                    Err(_) => { writeln!(out, "PANIC|{}", dump_msk(&msk)).unwrap(); return; }
                 }
             };
         }
@@ -81,13 +84,13 @@ fn main() {
             },
             "RF" => {
                 let k: usize = f[1].parse().unwrap(); let k = if usks.is_empty() { usize::MAX } else { k % usks.len() };
-                if k >= usks.len() { writeln!(out, "NOIDX|{}", dump_msk(&msk)).unwrap(); continue; }
+                if k >= usks.len() { writeln!(out, "NOIDX|{}", dump_msk(&msk)).unwrap(); return; }
                 let r = cc.refresh_usk(&mut msk, &mut usks[k], f[2] == "1");
                 writeln!(out, "{}|{}|{}", if r.is_ok() { "OK" } else { "ERR" }, dump_msk(&msk), dump_usk(&usks[k])).unwrap();
             }
             "EN" => {
                 let j: usize = f[1].parse().unwrap(); let j = if mpks.is_empty() { usize::MAX } else { j % mpks.len() };
-                if j >= mpks.len() { writeln!(out, "NOIDX|{}", dump_msk(&msk)).unwrap(); continue; }
+                if j >= mpks.len() { writeln!(out, "NOIDX|{}", dump_msk(&msk)).unwrap(); return; }
                 match pol!(f[2]) {
                     Some(p) => match cc.encaps(&mpks[j], &p) {
                         Ok((s, e)) => { writeln!(out, "OK|{}|{} ss=k{}", dump_msk(&msk), dump_enc(&e), hex(&s[..8])).unwrap(); encs.push((s, e)); }
@@ -99,8 +102,8 @@ fn main() {
             "DE" => {
                 let k: usize = f[1].parse().unwrap(); let k = if usks.is_empty() { usize::MAX } else { k % usks.len() };
                 let e: usize = f[2].parse().unwrap(); let e = if encs.is_empty() { usize::MAX } else { e % encs.len() };
-                if k >= usks.len() || e >= encs.len() { writeln!(out, "NOIDX|{}", dump_msk(&msk)).unwrap(); continue; }
-                if usks[k].count() == 0 { writeln!(out, "DEAD|{}", dump_msk(&msk)).unwrap(); continue; }
+                if k >= usks.len() || e >= encs.len() { writeln!(out, "NOIDX|{}", dump_msk(&msk)).unwrap(); return; }
+                if usks[k].count() == 0 { writeln!(out, "DEAD|{}", dump_msk(&msk)).unwrap(); return; }
                 let o = match cc.decaps(&usks[k], &encs[e].1) {
                     Ok(Some(s)) => if s == encs[e].0 { "SOME" } else { "WRONG" },
                     Ok(None) => "NONE",
@@ -111,7 +114,7 @@ fn main() {
             "RC" => {
                 let j: usize = f[1].parse().unwrap(); let j = if mpks.is_empty() { usize::MAX } else { j % mpks.len() };
                 let e: usize = f[2].parse().unwrap(); let e = if encs.is_empty() { usize::MAX } else { e % encs.len() };
-                if j >= mpks.len() || e >= encs.len() { writeln!(out, "NOIDX|{}", dump_msk(&msk)).unwrap(); continue; }
+                if j >= mpks.len() || e >= encs.len() { writeln!(out, "NOIDX|{}", dump_msk(&msk)).unwrap(); return; }
                 match cc.recaps(&msk, &mpks[j], &encs[e].1) {
                     Ok((s, x)) => { writeln!(out, "OK|{}|{} ss=k{}", dump_msk(&msk), dump_enc(&x), hex(&s[..8])).unwrap(); encs.push((s, x)); }
                     Err(_) => writeln!(out, "ERR|{}", dump_msk(&msk)).unwrap(),
@@ -119,7 +122,7 @@ fn main() {
             }
             // refresh of a DAMAGED COPY of an issued key (one bit of its signature flipped): must be refused, nothing may change
             "RFBAD" => {
-                if usks.is_empty() { writeln!(out, "NOIDX|{}", dump_msk(&msk)).unwrap(); continue; }
+                if usks.is_empty() { writeln!(out, "NOIDX|{}", dump_msk(&msk)).unwrap(); return; }
                 let k: usize = f[1].parse::<usize>().unwrap() % usks.len();
                 let mut b = usks[k].serialize().unwrap().to_vec(); let n = b.len(); b[n - 1] ^= 1;
                 match UserSecretKey::deserialize(&b) {
@@ -131,7 +134,7 @@ fn main() {
             // backup / restore of the master key (an old serialized copy replaces the current one)
             "SNAP" => { snaps.push(msk.serialize().unwrap().to_vec()); writeln!(out, "OK|{}", dump_msk(&msk)).unwrap(); }
             "REST" => {
-                if snaps.is_empty() { writeln!(out, "NOIDX|{}", dump_msk(&msk)).unwrap(); continue; }
+                if snaps.is_empty() { writeln!(out, "NOIDX|{}", dump_msk(&msk)).unwrap(); return; }
                 let k: usize = f[1].parse::<usize>().unwrap() % snaps.len();
                 msk = MasterSecretKey::deserialize(&snaps[k]).unwrap();
                 writeln!(out, "OK|{}", dump_msk(&msk)).unwrap();
@@ -142,13 +145,13 @@ fn main() {
                 match f[1] {
                     "MSK" => { let b = msk.serialize().unwrap(); ok &= b.len() == msk.length();
                         match MasterSecretKey::deserialize(&b) { Ok(m2) => { ok &= m2 == msk; msk = m2; } Err(_) => ok = false } }
-                    "MPK" => { let j: usize = f[2].parse().unwrap(); let j = if mpks.is_empty() { usize::MAX } else { j % mpks.len() }; if j >= mpks.len() { writeln!(out, "NOIDX|{}", dump_msk(&msk)).unwrap(); continue; }
+                    "MPK" => { let j: usize = f[2].parse().unwrap(); let j = if mpks.is_empty() { usize::MAX } else { j % mpks.len() }; if j >= mpks.len() { writeln!(out, "NOIDX|{}", dump_msk(&msk)).unwrap(); return; }
                         let b = mpks[j].serialize().unwrap(); ok &= b.len() == mpks[j].length();
                         match MasterPublicKey::deserialize(&b) { Ok(p2) => { ok &= p2 == mpks[j]; mpks[j] = p2; } Err(_) => ok = false } }
-                    "USK" => { let k: usize = f[2].parse().unwrap(); let k = if usks.is_empty() { usize::MAX } else { k % usks.len() }; if k >= usks.len() { writeln!(out, "NOIDX|{}", dump_msk(&msk)).unwrap(); continue; }
+                    "USK" => { let k: usize = f[2].parse().unwrap(); let k = if usks.is_empty() { usize::MAX } else { k % usks.len() }; if k >= usks.len() { writeln!(out, "NOIDX|{}", dump_msk(&msk)).unwrap(); return; }
                         let b = usks[k].serialize().unwrap(); ok &= b.len() == usks[k].length();
                         match UserSecretKey::deserialize(&b) { Ok(u2) => { ok &= u2 == usks[k]; usks[k] = u2; } Err(_) => ok = false } }
-                    "ENC" => { let e: usize = f[2].parse().unwrap(); let e = if encs.is_empty() { usize::MAX } else { e % encs.len() }; if e >= encs.len() { writeln!(out, "NOIDX|{}", dump_msk(&msk)).unwrap(); continue; }
+                    "ENC" => { let e: usize = f[2].parse().unwrap(); let e = if encs.is_empty() { usize::MAX } else { e % encs.len() }; if e >= encs.len() { writeln!(out, "NOIDX|{}", dump_msk(&msk)).unwrap(); return; }
                         let b = encs[e].1.serialize().unwrap(); ok &= b.len() == encs[e].1.length();
                         match XEnc::deserialize(&b) { Ok(x2) => { ok &= x2 == encs[e].1; encs[e].1 = x2; } Err(_) => ok = false } }
                     _ => ok = false,
@@ -157,5 +160,7 @@ fn main() {
             }
             _ => writeln!(out, "??").unwrap(),
         }
+            }));
+        if r.is_err() { writeln!(out, "PANIC|-").unwrap(); }
     }
 }
